@@ -556,4 +556,325 @@ theorem write_valid (K : Inflate) (enc : Bytes → Bytes) (s : Source) (tiles : 
           omega
         simp only [hne, if_false, hbl]
 
+/-! ### `as_directory`: the two outcomes -/
+
+theorem go_spec (enc : Bytes → Bytes) (target : Nat) (es : List Entry) : ∀ (sizes : List Nat) (root leaves : Bytes),
+    asDirectory.go enc target es sizes = .ok (root, leaves) →
+    root.length ≤ target ∧ ∃ ls, buildRootsLeaves enc ls es = .ok (root, leaves) := by
+  intro sizes
+  induction sizes with
+  | nil => intro root leaves h; simp [asDirectory.go] at h
+  | cons ls rest ih =>
+    intro root leaves h
+    unfold asDirectory.go at h
+    cases hb : buildRootsLeaves enc ls es with
+    | ok p =>
+      obtain ⟨r, l⟩ := p
+      rw [hb] at h
+      simp only at h
+      by_cases hr : r.length ≤ target
+      · simp only [hr, if_true] at h
+        injection h with h
+        injection h with h1 h2
+        subst h1 h2
+        exact ⟨hr, ls, hb⟩
+      · simp only [hr, if_false] at h
+        exact ih root leaves h
+    | err => rw [hb] at h; simp at h
+    | panic => rw [hb] at h; simp at h
+
+theorem asDirectory_cases (enc : Bytes → Bytes) (target : Nat) (l : List Entry) (root leaves : Bytes)
+    (h : asDirectory enc target l = .ok (root, leaves)) :
+    root.length ≤ target ∧
+      ((∃ raw, encDir (sortEntriesFast l) = .ok raw ∧ root = enc raw ∧ leaves = []) ∨
+       (∃ ls, buildRootsLeaves enc ls (sortEntriesFast l) = .ok (root, leaves))) := by
+  unfold asDirectory at h
+  simp only at h
+  by_cases hn : (sortEntriesFast l).length < 16384
+  · simp only [hn, if_true] at h
+    cases he : encDir (sortEntriesFast l) with
+    | ok raw =>
+      rw [he] at h
+      simp only at h
+      by_cases hr : (enc raw).length ≤ target
+      · simp only [hr, if_true] at h
+        injection h with h
+        injection h with h1 h2
+        exact ⟨by rw [← h1]; exact hr, Or.inl ⟨raw, rfl, h1.symm, h2.symm⟩⟩
+      · simp only [hr, if_false] at h
+        have := go_spec enc target _ _ root leaves h
+        exact ⟨this.1, Or.inr this.2⟩
+    | err => rw [he] at h; simp at h
+    | panic => rw [he] at h; simp at h
+  · simp only [hn, if_false] at h
+    have := go_spec enc target _ _ root leaves h
+    exact ⟨this.1, Or.inr this.2⟩
+
+/-! ### the root / leaf split -/
+
+/-- flat tile entries (what a leaf directory holds) -/
+structure Flat (es : List Entry) (hi : Nat) : Prop where
+  sorted : es.Pairwise (fun a b => a.id < b.id)
+  run : ∀ e ∈ es, e.run = 1
+  ok : ∀ e ∈ es, VtProofs.PMTiles.EntryOk e
+  hi : ∀ e ∈ es, e.id < hi
+  n : es.length ≤ 10000000000
+
+theorem Flat.sub {es es' : List Entry} {hi : Nat} (f : Flat es hi) (hs : es'.Sublist es) : Flat es' hi :=
+  ⟨f.sorted.sublist hs, fun e he => f.run e (hs.subset he), fun e he => f.ok e (hs.subset he),
+   fun e he => f.hi e (hs.subset he), by have := hs.length_le; have := f.n; omega⟩
+
+/-- result of `build_roots_leaves`' loop for the entries `es`, seen inside the leaf section -/
+structure LeavesSpec (C : Ctx) (es roots : List Entry) (hi : Nat) : Prop where
+  sorted : roots.Pairwise (fun a b => a.id < b.id)
+  each : ∀ r ∈ roots, r.run = 0 ∧ r.len > 0 ∧ VtProofs.PMTiles.EntryOk r ∧ r.id < hi ∧ ∃ x ∈ es, r.id = x.id
+  len : roots.length ≤ es.length
+  leaf : ∀ (k : Nat) (hk : k < roots.length), ∃ raw', LeafOf C (roots[k]'hk) raw' ∧
+    WFDir C 0 (roots[k]'hk).id (nextId roots k hi) raw' ∧ ∀ i t, Addr C 0 raw' i t → (t ∈ es ∧ t.id = i)
+  cover : ∀ t ∈ es, ∃ r ∈ roots, ∃ raw', LeafOf C r raw' ∧ Addr C 0 raw' t.id t
+
+theorem nextId_cons (r : Entry) (roots : List Entry) (k hi : Nat) : nextId (r :: roots) (k + 1) hi = nextId roots k hi := by
+  unfold nextId
+  simp
+
+theorem buildLeaves_spec (enc : Bytes → Bytes) (ls : Nat) (hls : 0 < ls) (C : Ctx) (hic : C.ic = .gzip)
+    (hK : ∀ b, C.K.gzip (enc b) = some b) (henc : ∀ b, enc b ≠ []) (hsz : C.leaves.length < U64) (hi : Nat) :
+    ∀ (fuel : Nat) (es : List Entry) (pos : Nat) (roots : List Entry) (bytes : Bytes),
+      es.length < fuel → Flat es hi → InFile C es →
+      buildLeaves enc ls fuel es pos = .ok (roots, bytes) →
+      ∀ (pre suf : Bytes), C.leaves = pre ++ (bytes ++ suf) → pre.length = pos → LeavesSpec C es roots hi := by
+  intro fuel
+  induction fuel with
+  | zero => intro es pos roots bytes h; omega
+  | succ fuel ih =>
+    intro es pos roots bytes hlen hflat hin hb pre suf hleaves hpre
+    unfold buildLeaves at hb
+    cases es with
+    | nil =>
+      simp only at hb
+      injection hb with hb
+      injection hb with h1 h2
+      subst h1 h2
+      exact ⟨List.Pairwise.nil, by simp, by simp, by intro k hk; simp at hk, by simp⟩
+    | cons e tl =>
+      simp only at hb
+      cases hraw : encDir ((e :: tl).take ls) with
+      | err => rw [hraw] at hb; simp at hb
+      | panic => rw [hraw] at hb; simp at hb
+      | ok raw =>
+        rw [hraw] at hb
+        simp only at hb
+        cases hrec : buildLeaves enc ls fuel ((e :: tl).drop ls) (pos + (enc raw).length) with
+        | err => rw [hrec] at hb; simp at hb
+        | panic => rw [hrec] at hb; simp at hb
+        | ok p =>
+          obtain ⟨roots', bytes'⟩ := p
+          rw [hrec] at hb
+          simp only at hb
+          injection hb with hb
+          injection hb with h1 h2
+          subst h1 h2
+          -- chunk and rest
+          generalize hchunk : (e :: tl).take ls = chunk at hraw
+          generalize hrest : (e :: tl).drop ls = rest at hrec
+          have hsplit : chunk ++ rest = e :: tl := by rw [← hchunk, ← hrest]; exact List.take_append_drop _ _
+          have hsubc : chunk.Sublist (e :: tl) := by rw [← hchunk]; exact List.take_sublist _ _
+          have hsubr : rest.Sublist (e :: tl) := by rw [← hrest]; exact List.drop_sublist _ _
+          have hechunk : e ∈ chunk := by
+            rw [← hchunk]
+            cases ls with
+            | zero => omega
+            | succ n => simp
+          have hrestlen : rest.length < fuel := by
+            rw [← hrest, List.length_drop]
+            simp only [List.length_cons] at hlen ⊢
+            omega
+          have hsorted := hflat.sorted
+          rw [← hsplit, List.pairwise_append] at hsorted
+          obtain ⟨hsc, hsr, hcross⟩ := hsorted
+          -- everything in the chunk is ≥ e
+          have hge : ∀ x ∈ chunk, e.id ≤ x.id := by
+            intro x hx
+            have hp := hflat.sorted
+            rw [List.pairwise_cons] at hp
+            have : x ∈ e :: tl := hsubc.subset hx
+            cases this with
+            | head => exact Nat.le_refl _
+            | tail _ h => exact Nat.le_of_lt (hp.1 x h)
+          have hleaves' : C.leaves = (pre ++ enc raw) ++ (bytes' ++ suf) := by
+            rw [hleaves]; simp only [List.append_assoc]
+          have ihr := ih rest (pos + (enc raw).length) roots' bytes' hrestlen (hflat.sub hsubr)
+            (fun x hx => hin x (hsubr.subset hx)) hrec (pre ++ enc raw) suf hleaves' (by simp [hpre])
+          -- the first leaf
+          have hdec : decDir raw = .ok chunk := by
+            apply VtProofs.PMTiles.decDir_encDir chunk _ _ raw hraw
+            · intro x hx; exact hflat.ok x (hsubc.subset hx)
+            · have := hsubc.length_le; have := hflat.n; omega
+          have hser : (enc raw).length > 0 := by
+            have := henc raw
+            cases h : enc raw with
+            | nil => exact absurd h this
+            | cons _ _ => simp
+          have hleaf0 : LeafOf C ⟨e.id, pos, (enc raw).length, 0⟩ raw := by
+            refine ⟨enc raw, ?_, by rw [hic]; simp only [Inflate.run, hK]⟩
+            have hle : pos + (enc raw).length ≤ C.leaves.length := by
+              rw [hleaves]; simp only [List.length_append]; omega
+            rw [readRange_of_le C.leaves _ (by simpa using hle) hsz]
+            congr 1
+            have : C.leaves = pre ++ (enc raw ++ (bytes' ++ suf)) := by
+              rw [hleaves]; simp only [List.append_assoc]
+            rw [this]
+            exact slice_at _ _ _ _ hpre
+          -- upper bound of the first leaf: the next root's id (or `hi`)
+          have hnext : ∀ x ∈ chunk, x.id < nextId (⟨e.id, pos, (enc raw).length, 0⟩ :: roots') 0 hi := by
+            intro x hx
+            unfold nextId
+            cases hr : roots' with
+            | nil => simp; exact hflat.hi x (hsubc.subset hx)
+            | cons r rs =>
+              simp only [List.getElem?_cons_succ, List.getElem?_cons_zero]
+              obtain ⟨_, _, _, _, y, hy, hry⟩ := ihr.each r (by rw [hr]; simp)
+              rw [hry]
+              exact hcross x hx y hy
+          have hw0 := wf_flat C chunk raw e.id (nextId (⟨e.id, pos, (enc raw).length, 0⟩ :: roots') 0 hi) hdec hsc
+            (fun x hx => hflat.run x (hsubc.subset hx)) hge hnext (fun x hx => hin x (hsubc.subset hx))
+          refine ⟨?_, ?_, ?_, ?_, ?_⟩
+          · rw [List.pairwise_cons]
+            refine ⟨?_, ihr.sorted⟩
+            intro r hr
+            obtain ⟨_, _, _, _, y, hy, hry⟩ := ihr.each r hr
+            show e.id < r.id
+            rw [hry]
+            exact hcross e hechunk y hy
+          · intro r hr
+            cases hr with
+            | head =>
+              refine ⟨rfl, hser, ⟨?_, ?_, by unfold U32; simp⟩, hflat.hi e (by simp), e, by simp, rfl⟩
+              · exact (hflat.ok e (by simp)).1
+              · have : pos + (enc raw).length ≤ C.leaves.length := by
+                  rw [hleaves]; simp only [List.length_append]; omega
+                show (enc raw).length < U64
+                omega
+            | tail _ hr =>
+              obtain ⟨a1, a2, a3, a4, y, hy, hry⟩ := ihr.each r hr
+              exact ⟨a1, a2, a3, a4, y, hsubr.subset hy, hry⟩
+          · have := ihr.len
+            have h1 : rest.length + 1 ≤ (e :: tl).length := by
+              rw [← hrest, List.length_drop]; simp only [List.length_cons]; omega
+            simp only [List.length_cons] at h1 ⊢
+            omega
+          · intro k hk
+            cases k with
+            | zero =>
+              refine ⟨raw, hleaf0, hw0.1, ?_⟩
+              intro i t ha
+              have := (hw0.2 i t).1 ha
+              exact ⟨hsubc.subset this.1, this.2⟩
+            | succ k =>
+              obtain ⟨raw', hl, hw, ha⟩ := ihr.leaf k (by simpa using hk)
+              refine ⟨raw', by simpa using hl, ?_, ?_⟩
+              · rw [nextId_cons]; simpa using hw
+              · intro i t hat
+                have := ha i t hat
+                exact ⟨hsubr.subset this.1, this.2⟩
+          · intro t ht
+            rw [← hsplit, List.mem_append] at ht
+            rcases ht with ht | ht
+            · exact ⟨_, by simp, raw, hleaf0, (hw0.2 t.id t).2 ⟨ht, rfl⟩⟩
+            · obtain ⟨r, hr, raw', hl, ha⟩ := ihr.cover t ht
+              exact ⟨r, by simp [hr], raw', hl, ha⟩
+
+/-- the root / leaf split (`Case3` of `as_directory`) -/
+theorem dirSpec_leaves (C : Ctx) (hic : C.ic = .gzip) (enc : Bytes → Bytes) (hK : ∀ b, C.K.gzip (enc b) = some b)
+    (henc : ∀ b, enc b ≠ []) (hsz : C.leaves.length < U64)
+    (es : List Entry) (ok : EntriesOk es) (hin : InFile C es) (ls : Nat) (root : Bytes)
+    (h : buildRootsLeaves enc ls (sortEntriesFast es) = .ok (root, C.leaves)) : DirSpec C root es := by
+  unfold buildRootsLeaves at h
+  by_cases hls : ls = 0
+  · simp [hls] at h
+  · simp only [hls, if_false] at h
+    cases hb : buildLeaves enc ls ((sortEntriesFast es).length + 1) (sortEntriesFast es) 0 with
+    | err => rw [hb] at h; simp at h
+    | panic => rw [hb] at h; simp at h
+    | ok p =>
+      obtain ⟨roots, lv⟩ := p
+      rw [hb] at h
+      simp only at h
+      cases hr : encDir roots with
+      | err => rw [hr] at h; simp at h
+      | panic => rw [hr] at h; simp at h
+      | ok r =>
+        rw [hr] at h
+        simp only at h
+        injection h with h
+        injection h with h1 h2
+        subst h1
+        have hflat : Flat (sortEntriesFast es) (Hilbert.base 32) :=
+          ⟨sorted_strict es ok.nodup, fun e he => ok.run e ((sorted_mem es e).1 he),
+           fun e he => ok.ok e ((sorted_mem es e).1 he), fun e he => ok.ids e ((sorted_mem es e).1 he),
+           by rw [(sorted_perm es).length_eq]; exact ok.n⟩
+        have hspec := buildLeaves_spec enc ls (by omega) C hic hK henc hsz (Hilbert.base 32) _ _ 0 roots lv
+          (Nat.lt_succ_self _) hflat (fun e he => hin e ((sorted_mem es e).1 he)) hb [] []
+          (by rw [← h2]; simp) rfl
+        have hdec : decDir r = .ok roots := by
+          apply VtProofs.PMTiles.decDir_encDir roots _ _ r hr
+          · intro x hx; exact (hspec.each x hx).2.2.1
+          · have := hspec.len; have := hflat.n; omega
+        refine ⟨1, r, by omega, by simp only [Inflate.run, hK], ?_, ?_⟩
+        · refine ⟨roots, hdec, hspec.sorted, ?_⟩
+          intro k hk
+          have hm := List.getElem_mem hk
+          obtain ⟨a1, a2, a3, a4, _⟩ := hspec.each _ hm
+          refine ⟨Nat.zero_le _, a4, ?_, ?_⟩
+          · intro hpos; omega
+          · intro _ _
+            obtain ⟨raw', hl, hw, _⟩ := hspec.leaf k hk
+            exact ⟨raw', hl, hw⟩
+        · intro i t
+          constructor
+          · rintro ⟨es', hdec', hor⟩
+            rw [hdec] at hdec'; injection hdec' with e0; subst e0
+            rcases hor with ⟨hmem, hrun, _, _⟩ | ⟨e, hmem, hrun, hlen, raw', hleaf, haddr⟩
+            · have := (hspec.each t hmem).1; omega
+            · obtain ⟨k, hk, rfl⟩ := List.getElem_of_mem hmem
+              obtain ⟨raw'', hl, _, ha⟩ := hspec.leaf k hk
+              have := LeafOf.unique hleaf hl
+              subst this
+              have := ha i t haddr
+              exact ⟨(sorted_mem es t).1 this.1, this.2⟩
+          · rintro ⟨hmem, rfl⟩
+            obtain ⟨rr, hrr, raw', hl, ha⟩ := hspec.cover t ((sorted_mem es t).2 hmem)
+            obtain ⟨a1, a2, _⟩ := hspec.each rr hrr
+            exact ⟨roots, hdec, Or.inr ⟨rr, hrr, a1, a2, raw', hl, ha⟩⟩
+
+/-- `as_directory` delivers what the reader needs, for both outcomes -/
+theorem dirProvider (K : Inflate) (enc : Bytes → Bytes) (hK : ∀ b, K.gzip (enc b) = some b) (hnil : K.gzip [] = none) :
+    DirProvider K enc := by
+  intro C es root leaves hes hin hCK hic hlv hsize hll hres
+  have henc : ∀ b, enc b ≠ [] := by
+    intro b e
+    have := hK b
+    rw [e, hnil] at this
+    cases this
+  have hK' : ∀ b, C.K.gzip (enc b) = some b := by rw [hCK]; exact hK
+  obtain ⟨hle, hcase⟩ := asDirectory_cases enc _ es root leaves hres
+  refine ⟨hle, ?_⟩
+  rcases hcase with ⟨raw, hraw, hroot, _⟩ | ⟨ls, hb⟩
+  · rw [hroot]
+    exact dirSpec_small C hic enc hK' es hes hin raw hraw
+  · rw [← hlv] at hb
+    exact dirSpec_leaves C hic enc hK' henc (by rw [hlv]; omega) es hes hin ls root hb
+
+/-- **C01 (PMTiles)**: the written file is valid for the source's map — root-only and root/leaf
+    directories alike -/
+theorem write_valid_full (K : Inflate) (enc : Bytes → Bytes) (s : Source) (tiles : Nat × Nat × Nat → Option Bytes)
+    (gs : GoodStream s.levels s.stream tiles)
+    (hK : ∀ b, K.gzip (enc b) = some b) (hnil : K.gzip [] = none)
+    (hmeta : ∃ raw, K.run .gzip s.metaB = .ok raw) (hcz : s.cz < 256)
+    (hgeo : i32ok s.minlon ∧ i32ok s.minlat ∧ i32ok s.maxlon ∧ i32ok s.maxlat ∧ i32ok s.clon ∧ i32ok s.clat)
+    (hcount : ((s.levels.flatMap grid256).flatMap s.stream).length ≤ 10000000000)
+    (file : Bytes) (hw : write enc s = .ok file) (hsize : file.length < U64) :
+    ValidPMTiles K file (fmtOfType (typeCode s.fmt)) s.comp (fun p => nonEmpty (tiles p)) :=
+  write_valid K enc s tiles gs hmeta hcz hgeo hcount file hw hsize (dirProvider K enc hK hnil)
+
 end VtProofs.PMTilesWrite
